@@ -121,3 +121,34 @@ func TestVerifC03Composite(t *testing.T) {
 func TestVerifC04Composite(t *testing.T) {
 	vs.Run(t, "C04", func(c *vs.Case) error { return vw.PropC04(c, compositeFactory) })
 }
+
+func TestVerifC07Regressions(t *testing.T) {
+	vs.RunFixed(t, "C07", map[string]func() error{
+		// F3: the hook already returns a condition of type Updated; the rollout state must still be reported
+		"updated-condition-overrides-hooks-own": func() error {
+			scn := vw.FixedScn("widgets", "RollingInPlace", []string{"w0", "w1"}, 3)
+			env, err := vw.NewEnv(scn, compositeFactory)
+			if err != nil {
+				return err
+			}
+			for i := 0; i < 3; i++ {
+				env.MakeHealthy()
+				if tr := env.SyncFresh(); tr.Panic != "" {
+					return vs.Violf("C07/panic", "%s", tr.Panic)
+				}
+			}
+			st, _ := env.Parent()["status"].(map[string]any)
+			conds, _ := st["conditions"].([]any)
+			for _, c := range conds {
+				m, _ := c.(map[string]any)
+				if m["type"] == "Updated" {
+					if m["status"] == "True" && m["reason"] == "OnLatestRevision" {
+						return nil
+					}
+					return vs.Violf("C07/updated-condition-wrong", "all rolling children are on the latest revision but the parent's Updated condition is %v (the hook's own value survived)", m)
+				}
+			}
+			return vs.Violf("C07/updated-condition-wrong", "parent status has no Updated condition: %v", st)
+		},
+	})
+}
